@@ -8,6 +8,12 @@ CLAIMED = {
              note=ENGINE_NOTE, technique='source-level symbolic execution of the engine (rs2json AST + z3 bit-vectors, extent storage model), native replay gate', ref='7/C01'),
  'C03': dict(text='Same exploration as C01 with the batch-read oracle: at most 2000 entries, total payload within the byte budget unless exactly one entry, and progress whenever an unconsumed entry exists; budgets fully symbolic including 0 and usize::MAX.',
              note=ENGINE_NOTE, technique='source-level symbolic execution of batch_read_for_topic (z3 bit-vectors), native replay gate', ref='7/C03'),
+ 'C04': dict(text='Bounded symbolic model checking of the real write path with rejected operations interleaved: oversized entries (single and inside a batch), topic names too long for the entry header (single and batch path), 2001-entry and >10 GiB batches, followed by reads and (thorough) a clean reopen; sizes symbolic; oracle: a failed call contributes nothing, later reads still deliver exactly the successful entries in order, counts unchanged, no panic.',
+             note=ENGINE_NOTE + ' I/O fault injection (failed io_uring completions, failed file creation/fsync) and the concurrent-reader clause are not part of this check yet.',
+             technique='source-level symbolic execution of Writer::write/batch_write/submit_batch_via_io_uring (z3 bit-vectors, io_uring queue model), native replay gate', ref='7/C04'),
+ 'C06': dict(text='Bounded symbolic model checking of restart histories: appends and consuming reads, a clean shutdown, and the real Walrus::with_paths/startup_chore/rebuild_topic_entry_counts_after_recovery/cursor hydration interpreted on the model file system; sizes symbolic (<= 32 MiB in multi-operation histories, every accepted size in the single-append history); oracle: the stream, order, remaining entries and counts are what they would be without the restart.',
+             note=ENGINE_NOTE + ' The wall clock is monotone in this model (clock regression between runs is outside the claim).',
+             technique='source-level symbolic execution of recovery and read paths (z3 bit-vectors, extent file model surviving the process), native replay gate', ref='7/C06'),
  'C14': dict(text='Bounded symbolic model checking of the real sanitize_namespace and WalPathManager::{with_data_dir, for_key, default}: the key is a vector of arbitrary Unicode scalar values of every length 0..8 (quick) / 0..24 (thorough); z3 shows the pushed directory component is non-empty, free of separators/NUL and neither "." nor ".."; counterexamples are replayed by building a real instance and listing where its files appear.',
              note='Trusted: AST dump, interpreter, models of PathBuf::push, chars/map/collect, is_ascii_alphanumeric, trim_matches, format!("ns_{:x}"); differential-tested against the real builder on concrete keys on every run. Longer keys are outside the claim.',
              technique='source-level symbolic execution (z3, strings as code-point vectors, If-merged per-character closure), native replay gate', ref='7/C14'),
